@@ -242,7 +242,7 @@ Definition spec_ok (p : prop_id) (c : case) : bool :=
       | Some r, Some d =>
           match ref_eval r d with
           | (t, Ok v) => N.eqb code 0 && list_eqb str_eqb lines (map json_text t ++ [json_text v])
-          | (_, Err _) => negb (N.eqb code 0)
+          | (t, Err _) => negb (N.eqb code 0) && lines_prefixb lines (map json_text t)
           | _ => false
           end
       | _, _ => negb (N.eqb code 0) && match lines with [] => true | _ => false end
